@@ -194,6 +194,7 @@ func HarnessC03() {
 	deps2 := newDeps(w)
 	verifFailAt = verifIntRange(1, n0+2)
 	verifPersistent = verifBool()
+	verifFaultCancelled = verifChoice(2) == 1
 	cls := "storage-fault"
 	if w.shape.hasTTU() {
 		cls += "+traverse"
